@@ -218,6 +218,11 @@ def compare(ctx, t, rows, build, stats):
         if op == "create":
             if not r.get("ok") or not r.get("valid"):
                 bad("ec2:create:curve=%s" % t.name, "the curve could not be created / ec2IsValid rejected a valid curve (%s build)" % build, r)
+            if r.get("ok") and r.get("tplnull") == 0:
+                bad("ec2:create:tpl-not-null", "ec2CreateLD leaves a non-null tripling pointer (ec.h: the pointer to an unsupported function must be null; "
+                    "description created in memory that held other data, %s build)" % build, r)
+            if r.get("ok") and r.get("fvalid") == 0:
+                bad("ec2:create:field-invalid:curve=%s" % t.name, "gf2IsValid rejects the field description just built by gf2Create in memory that held other data (%s build)" % build, r)
             continue
         row = r.get("row")
         zc = "Z=1" if r.get("rep") == 0 else "Z=rnd"
